@@ -341,7 +341,44 @@ impl Runner {
             let batches = match res {
                 Ok(b) => b,
                 Err(e) => {
-                    let inv = matches!(&filter, Some(Pred::Between(_, Lit::I(a), Lit::I(b))) if a > b);
+                    // KF-21: an empty range (BETWEEN with swapped bounds, or two comparisons
+                    // that contradict each other) in the pre-filter
+                    fn lit_lt(a: &Lit, b: &Lit) -> bool {
+                        match (a, b) {
+                            (Lit::I(x), Lit::I(y)) => x < y,
+                            (Lit::F(x), Lit::F(y)) => x < y,
+                            (Lit::S(x), Lit::S(y)) => x < y,
+                            _ => false,
+                        }
+                    }
+                    fn empty_range(p: &Pred) -> bool {
+                        match p {
+                            Pred::Between(_, a, b) => lit_lt(b, a),
+                            Pred::And(x, y) => {
+                                if let (Pred::Cmp(c1, o1, l1), Pred::Cmp(c2, o2, l2)) = (x.as_ref(), y.as_ref()) {
+                                    if c1 == c2 {
+                                        let (up, lo) = if matches!(o1, Cmp::Lt | Cmp::Le) && matches!(o2, Cmp::Gt | Cmp::Ge) {
+                                            (Some(l1), Some(l2))
+                                        } else if matches!(o2, Cmp::Lt | Cmp::Le) && matches!(o1, Cmp::Gt | Cmp::Ge) {
+                                            (Some(l2), Some(l1))
+                                        } else {
+                                            (None, None)
+                                        };
+                                        if let (Some(u), Some(l)) = (up, lo) {
+                                            if lit_lt(u, l) {
+                                                return true;
+                                            }
+                                        }
+                                    }
+                                }
+                                empty_range(x) || empty_range(y)
+                            }
+                            Pred::Or(x, y) => empty_range(x) || empty_range(y),
+                            Pred::Not(x) => empty_range(x),
+                            _ => false,
+                        }
+                    }
+                    let inv = filter.as_ref().map(empty_range).unwrap_or(false);
                     self.res.violate("C22", "O-knn", &format!("knn-error:{}{}{}", err_class(&e.to_string()), if inv { ":inverted-between-prefilter" } else { "" }, if use_index && idx_kind.is_some() { stable_tag } else { "" }), self.step, format!("{} failed: {}", what, e));
                     continue;
                 }
